@@ -313,3 +313,51 @@ func maxViol() int {
 	}
 	return 25
 }
+
+// RacePass turns what the free-running race-detector pass of a child-only harness left in the scratch directory
+// (check.sh: race.exit, race.stderr; the child: race.json) into violations and coverage. It does nothing when the
+// pass was not run (replay of a single schedule).
+func (r *Run) RacePass(what string) {
+	scratch := os.Getenv("VERIF_SCRATCH")
+	ex, err := os.ReadFile(filepath.Join(scratch, "race.exit"))
+	if err != nil {
+		return
+	}
+	stderrB, _ := os.ReadFile(filepath.Join(scratch, "race.stderr"))
+	stderr := string(stderrB)
+	var res map[string]any
+	if b, err := os.ReadFile(filepath.Join(scratch, "race.json")); err == nil {
+		json.Unmarshal(b, &res)
+	}
+	code := strings.TrimSpace(string(ex))
+	reports := strings.Count(stderr, "WARNING: DATA RACE")
+	first := func(s string, n int) string {
+		l := strings.Split(s, "\n")
+		if len(l) > n {
+			l = l[:n]
+		}
+		return strings.Join(l, "\n")
+	}
+	switch {
+	case reports > 0:
+		r.Violation("data-race", "the race detector reported a data race "+what+": "+first(stderr, 30), map[string]any{"report": first(stderr, 90)})
+	case strings.Contains(stderr, "fatal error:"):
+		r.Violation("crash-free-running", "the free-running pass crashed: "+first(stderr[strings.Index(stderr, "fatal error:"):], 12), map[string]any{"report": first(stderr, 60)})
+	case strings.Contains(stderr, "panic:"):
+		r.Violation("crash-free-running", "the free-running pass panicked: "+first(stderr[strings.Index(stderr, "panic:"):], 12), map[string]any{"report": first(stderr, 60)})
+	case code == "124" || code == "137":
+		// the pass takes seconds; 15 minutes without finishing is a hang of the code under test (deadlock between real goroutines)
+		r.Violation("free-running-pass-hangs", "the free-running pass did not finish within 15 minutes "+what, map[string]any{"stderr": first(stderr, 40)})
+	case res == nil || (code != "0" && code != "66"):
+		fmt.Fprintln(os.Stderr, stderr)
+		Fatal("race pass failed (exit %s)", code)
+	}
+	if res == nil {
+		res = map[string]any{}
+	}
+	if m, _ := res["mismatch"].(string); m != "" {
+		r.Violation("wrong-result-free-running", "free-running pass: "+m, res)
+	}
+	res["race_detector_reports"] = reports
+	r.Cov["race_pass"] = res
+}
